@@ -246,10 +246,16 @@ func checkC20(c c20Case) *evid.Fail {
 				case "null":
 					v.SetAsObject(nil)
 				case "array":
-					// the caller's list has spare capacity, as lists built with append usually do
+					// the caller's list has spare capacity, as lists built with append usually do;
+					// equal elements are one and the same *Variant object (a row used twice)
 					list := make([]*variants.Variant, len(op.V.A), len(op.V.A)+4)
+					shared := map[string]*variants.Variant{}
 					for i, e := range op.V.A {
-						list[i] = e.toVariant()
+						k := jsonStr(e)
+						if shared[k] == nil {
+							shared[k] = e.toVariant()
+						}
+						list[i] = shared[k]
 					}
 					v.SetAsArray(list)
 					// the caller goes on using its list
@@ -419,7 +425,7 @@ func TestC20_ExhaustiveHostValues(t *testing.T) {
 
 func genC20Elem(t *rapid.T) val {
 	return rapid.SampledFrom([]val{vNull(), vInt(1), vInt(2), vLong(3), vDouble(2.5), vDouble(math.NaN()), vString("a"), vString(""), vBool(true), vSpan(time.Second),
-		vTime(time.Unix(1600000000, 0).UTC()), vArray(), vArray(vInt(1)), val{K: "object", S: "o"}}).Draw(t, "el")
+		vTime(time.Unix(1600000000, 0).UTC()), vArray(), vArray(vInt(1)), vArray(vInt(1), vInt(2)), vArray(vInt(1), vInt(2)), vArray(vInt(1), vInt(3)), val{K: "object", S: "o"}}).Draw(t, "el")
 }
 
 func genC20Value(t *rapid.T) val {
@@ -484,6 +490,7 @@ func TestC20_ExhaustiveShortHistories(t *testing.T) {
 		{Op: "clone", Slot: 1, Src: 0}, {Op: "clone", Slot: 0, Src: 1}, {Op: "assign", Slot: 1, Src: 0}, {Op: "clear", Slot: 0},
 		{Op: "equals", Slot: 0, Src: 1}, {Op: "getByIndex", Slot: 1, Idx: 0},
 		{Op: "set", Slot: 1, V: vArray()}, {Op: "callerAppend", Slot: 1}, {Op: "callerAppend", Slot: 0},
+		{Op: "set", Slot: 0, V: vArray(vArray(vInt(1), vInt(2)), vArray(vInt(1), vInt(2)))}, {Op: "set", Slot: 1, V: vArray(vArray(vInt(1), vInt(2)), vArray(vInt(1), vInt(3)))},
 	}
 	depth := pick(4, 5)
 	rec.Bounds = fmt.Sprintf("all histories of length 1..%d over %d operations on two variants (array set, scalar set, fromArray, index writes inside and past the end, setLength, clone both ways, assign, clear, equals, getByIndex)", depth, len(alpha))
